@@ -268,6 +268,57 @@ pub struct PartResult {
 
 /// Drive `cases` generated cases (split over the worker threads) through `check`.
 /// First failing case (not matching a listed known finding) is shrunk by proptest and returned.
+// ---- stuck-worker guard --------------------------------------------------------------------------------------------------------
+// A case that never returns (a loop in the library) would block a check for ever. Every worker notes the case it has in hand; a monitor
+// thread saves a case that has been in work for more than 300 s (VERIF_STUCK_SECS) and ends the run with exit 2: a hang is infrastructure trouble
+// for every check but C16 / C07, which own the termination statements and have their own, confirmed, watchdogs (C16: 20 s + two
+// isolated replays; C07: child-process probes).
+fn stuck_secs() -> u64 {
+    std::env::var("VERIF_STUCK_SECS").ok().and_then(|s| s.parse().ok()).unwrap_or(300)
+}
+type StuckSlot = std::sync::Arc<Mutex<Option<(std::time::Instant, String, String, Box<dyn Fn() -> Value + Send>)>>>;
+static STUCK_SLOTS: Mutex<Vec<StuckSlot>> = Mutex::new(Vec::new());
+static STUCK_MONITOR: std::sync::Once = std::sync::Once::new();
+thread_local! {
+    static STUCK_MINE: StuckSlot = {
+        let s: StuckSlot = Default::default();
+        STUCK_SLOTS.lock().unwrap().push(s.clone());
+        s
+    };
+}
+
+pub struct InWork(StuckSlot);
+impl Drop for InWork {
+    fn drop(&mut self) {
+        *self.0.lock().unwrap() = None;
+    }
+}
+
+pub fn in_work<C: Serialize + Clone + Send + 'static>(prop: &str, part: &str, case: &C) -> InWork {
+    STUCK_MONITOR.call_once(|| {
+        std::thread::spawn(|| loop {
+            std::thread::sleep(std::time::Duration::from_secs(5));
+            let slots: Vec<StuckSlot> = STUCK_SLOTS.lock().unwrap().clone();
+            for s in slots {
+                let g = s.lock().unwrap();
+                if let Some((since, prop, part, case)) = &*g {
+                    if since.elapsed().as_secs() >= stuck_secs() {
+                        let v = Violation { part: part.clone(), message: format!("in work for more than {} s", stuck_secs()), case: case() };
+                        let path = write_replay(prop, &v);
+                        eprintln!("infrastructure: a case of part {part} has been in work for more than {} s (saved as {path}); the run is abandoned - a hang is reported as exit 2, never as a violation", stuck_secs());
+                        std::process::exit(2);
+                    }
+                }
+            }
+        });
+    });
+    let c = case.clone();
+    STUCK_MINE.with(|s| {
+        *s.lock().unwrap() = Some((std::time::Instant::now(), prop.to_string(), part.to_string(), Box::new(move || serde_json::to_value(&c).unwrap_or(Value::Null))));
+        InWork(s.clone())
+    })
+}
+
 pub fn run_part<C, F, G>(ctx: &Ctx, part: &str, cases: u64, strategy: G, check: F, known: &[KnownSig<C>]) -> PartResult
 where
     C: Serialize + DeserializeOwned + Debug + Clone + Send + 'static,
@@ -314,6 +365,7 @@ where
                             if abort.load(Ordering::Relaxed) && !failed.get() {
                                 return Ok(());
                             }
+                            let guard = in_work(ctx.prop, &part, &case);
                             let out = match catch(|| check(&case)) {
                                 Ok(o) => o,
                                 Err(p) => {
@@ -322,6 +374,7 @@ where
                                     o
                                 }
                             };
+                            drop(guard);
                             if let Some(msg) = &out.failure {
                                 for k in active_known.iter() {
                                     if (k.pred)(&case, msg) {
@@ -391,7 +444,7 @@ where
 /// `n` items indexed 0..n are distributed round-robin; `make(i)` builds the case.
 pub fn run_enum<C, F, M>(ctx: &Ctx, part: &str, n: u64, exhaustive: bool, scope_txt: &str, make: M, check: F, known: &[KnownSig<C>]) -> PartResult
 where
-    C: Serialize + Debug + Clone + Send,
+    C: Serialize + Debug + Clone + Send + 'static,
     F: Fn(&C) -> Outcome + Sync,
     M: Fn(u64) -> Option<C> + Sync,
 {
@@ -429,6 +482,8 @@ where
                                 break 'outer;
                             }
                             let Some(case) = make(i) else { continue };
+                            // C16 enumerates tens of millions of tiny strings and has a watchdog of its own
+                            let guard = if ctx.prop == "C16" { None } else { Some(in_work(ctx.prop, &part, &case)) };
                             let out = match catch(|| check(&case)) {
                                 Ok(o) => o,
                                 Err(p) => {
@@ -437,6 +492,7 @@ where
                                     o
                                 }
                             };
+                            drop(guard);
                             if let Some(msg) = &out.failure {
                                 let mut is_known = false;
                                 for k in active_known.iter() {
